@@ -320,7 +320,7 @@ func (h *Handler) ProcessPacket(frame packet.Frame) error {
 
 func getClientID(p packet.DHCP4, options packet.DHCP4Options) []byte {
 	clientID, ok := options[packet.DHCP4OptionClientIdentifier]
-	if !ok {
+	if !ok || len(clientID) == 0 { // an identifier of length zero identifies nobody (and cannot be saved): use the hardware address
 		clientID = p.CHAddr()
 	}
 	return clientID
